@@ -82,6 +82,12 @@ CHECKS = {
    technique="deterministic simulation: same W-ing world as C10 with upstream zones that are slow, silent, or answer with garbage / the wrong question / TC then a dead TCP connection; reply count and fake-clock latency per operation; drain and quiescence after load",
    text="Seeded search biased to failing upstreams, identical/related queries in flight and worker pools small enough to queue and overflow. Every well-formed query must get exactly one reply no later than the query timeout plus 1.5 s (fake time), packets that must be ignored get none, rejected packets at most one; unanswered queries are allowed only up to the count the kernel queue and the engine's drop counters report as shed; after the load the listener must drain and the server report quiescence. Sampling, not proof.",
    note="Shedding is attributed by count, not per query. The 'small scheduling margin' is taken as 1.5 s. UDP only. Goroutine/limiter leak detection is limited to the listener's drain result and Server.Quiesced."),
+
+ "C05": dict(
+   level="exploration", design="§3 C05",
+   technique="deterministic simulation, twin runs: the same seeded scenario (world, configuration, query packets at the same fake instants) executed once through the owned UDP transport (wire path, inline + replay) and once through Server.ServeMsg (decoded path); per-operation comparison of the decoded replies",
+   text="Seeded search over configurations (NSID, cookie secret, blocklist, client rate limit, prefetch, RFC 8198) and packet sequences over a signed hierarchy (answers, aliases, wildcards, NXDOMAIN and names below it, NODATA, empty zones, blocked names, unreachable zones, CHAOS; header bits; EDNS version/size/DO; cookies of 8/24/2 bytes, NSID, keepalive, padding, client subnet, unknown options), with repeats so that later packets are served from what earlier ones cached. Reply i of the wire run must decode to the same message as reply i of the decoded run, including 'no reply'. Sampling, not proof.",
+   note="Letter case of names inside RDATA is normalised like owner case (the wire path compresses them against the client's mixed-case question; a consequence of name compression). Zones are signed with Ed25519 so that both runs carry identical signatures. Packets rejected on the header alone and hosts-file state are not generated. The wire run uses a worker pool large enough never to queue."),
 }
 
 NOT_APPLICABLE = {
